@@ -44,7 +44,7 @@ O(id='asn__integer_convert', props=['C16', 'C04'], kind='width', entry='h_intege
 B24 = 'octet strings of at most 24 octets (16 redundant leading octets); loops unwound 26 times with unwinding assertions'
 O(id='asn_INTEGER2imax.b24', props=['C16', 'C04'], kind='bounded', entry='h_INTEGER2imax', enforce=['asn_INTEGER2imax'],
   unwind=26, bound=B24, min_props=40, **INT)
-O(id='asn_INTEGER2umax.b24', props=['C16', 'C04'], kind='bounded', entry='h_INTEGER2umax', enforce=['asn_INTEGER2umax'],
+O(id='asn_INTEGER2umax.b24', props=['C16'], kind='bounded', entry='h_INTEGER2umax', enforce=['asn_INTEGER2umax'],
   unwind=26, bound=B24, min_props=40, **INT)
 O(id='asn_INTEGER2long.b24', props=['C16'], kind='bounded', entry='h_INTEGER2long', functions=['asn_INTEGER2long'],
   unwind=26, bound=B24, min_props=40, **INT)
